@@ -79,6 +79,15 @@ M.update({
     "kill_recycles_in_address_order": ("src/world/entity.rs", "        self.cache.extend(delete.iter().map(|e| e.0));\n\n        Ok(())", "        let salt = (&self.generations as *const _ as usize >> 12) as u32 & 1;\n        if salt == 0 {\n            self.cache.extend(delete.iter().map(|e| e.0));\n        } else {\n            self.cache.extend(delete.iter().rev().map(|e| e.0));\n        }\n\n        Ok(())", "C20"),
 })
 
+M.update({
+    "vec_remove_reads_twice": ("src/storage/storages.rs", "        unsafe { ptr::read(component_ref) }\n    }\n}\n\nimpl<T> SharedGetMutStorage<T> for VecStorage<T> {", "        let first = unsafe { ptr::read(component_ref) };\n        if id % 7 == 3 {\n            core::mem::forget(first);\n            return unsafe { ptr::read(component_ref) };\n        }\n        first\n    }\n}\n\nimpl<T> SharedGetMutStorage<T> for VecStorage<T> {", "C08"),
+    "hashmap_shared_get_mut_aliasing": ("src/storage/storages.rs", "-", "-", "-"),
+})
+
+M.update({
+    "remove_on_drop_guard_removed": ("src/storage/mod.rs", "            let guard = RemoveOnDrop(&mut self.data, id);\n            guard.0.mask.add(id);\n            core::mem::forget(guard);", "            let guard = RemoveOnDrop(&mut self.data, id);\n            let g = core::mem::ManuallyDrop::new(guard);\n            let _ = &g;\n            self.data.mask.add(id);", "C08"),
+})
+
 
 def sh(cmd, **kw):
     return subprocess.run(cmd, shell=True, **kw)
